@@ -108,6 +108,26 @@ package statedb
 //@   ensures @count e != nil ==> (e.used ? 1 + len(e.tail) : 0) == old(e.used ? 1 + len(e.tail) : 0) - (removed ? 1 : 0)
 //@   ensures @nil e == nil ==> !removed
 
+// removeKey / insertKey of the LPM index (C04): the trie entry of a key is deleted only when its
+// single remaining object is the one being removed (same primary key), or after lpmEntry.delete
+// reported that it removed the object and nothing is left; an entry that still holds other
+// objects is written back. The object count follows exactly those removals.
+//@ func (*lpmIndexTxn).removeKey
+//@   property C04
+//@   flag nosafety
+//@   requires l != nil && l.tx != nil
+//@   aftercall (*Txn).LookupExact@1 assume !result.used ==> len(result.tail) == 0
+//@   atcall (*Txn).Delete@1 requires @single-object-is-the-one-removed found && bytesEq(entry.head.primary, primaryKey) && l.size == old(l.size) - 1
+//@   atcall (*Txn).Delete@2 requires @emptied-by-removing-it found && removed && (entry.used ? 1 + len(entry.tail) : 0) == 0 && l.size == old(l.size) - 1
+//@   atcall (*Txn).Insert@1 requires @rest-written-back found && removed && (entry.used ? 1 + len(entry.tail) : 0) > 0 && l.size == old(l.size) - 1
+//@   ensures @size-step l.size == old(l.size) || l.size == old(l.size) - 1
+//@ func (*lpmIndexTxn).insertKey
+//@   property C04
+//@   flag nosafety
+//@   requires l != nil && l.tx != nil && l.index != nil
+//@   aftercall (*Txn).LookupExact@2 assume !result.used ==> len(result.tail) == 0
+//@   ensures @size-step l.size == old(l.size) || l.size == old(l.size) + 1
+
 // ---------------------------------------------------------------------------
 // Root pointer protocol (C02, C05, C06, C10, C19).
 //
@@ -242,6 +262,20 @@ package statedb
 //@   ensures @released old(handle.writeTxnState) != nil ==> !GH_smus[old(handle.writeTxnState.smus)]
 //@   ensures @noop old(handle.writeTxnState) == nil ==> unchanged(GH_smus)
 
+// The per-index commit step of Commit runs BEFORE the new root is stored: it only builds the new
+// index value and hands back the object to notify later. It must not close any watch channel
+// itself, or a watcher would wake up while readers still see the old root (C06).
+//@ func (*lpmIndexTxn).commit
+//@   property C06
+//@   flag nosafety
+//@   flag noclose
+//@   requires l != nil && l.tx != nil
+//@ func (*partIndexTxn).commit
+//@   property C06
+//@   flag nosafety
+//@   flag noclose
+//@   requires r != nil && r.tx != nil && r.tx.prevTxn != nil
+
 // Registering a delete tracker (Changes) happens inside a transaction that may still be
 // aborted: it must not close any channel (it used to notify the committed tracker tree).
 //@ func (*writeTxnState).addDeleteTracker
@@ -249,6 +283,10 @@ package statedb
 //@   flag nosafety
 //@   flag assumepre=the-tracker-tree-of-a-table-entry-is-a-well-formed-part.Tree
 //@   flag noclose
+//@   requires txn != nil ==> 0 <= tposOf(meta) && tposOf(meta) < len(txn.tableEntries) && txn.tableEntries[tposOf(meta)] != nil && txn.tableEntries[tposOf(meta)].deleteTrackers != nil
+//@   atstore Tree requires @shared-tracker-tree-not-written-in-place fresh($p)
+//@   ensures @private-new-tree txn != nil && result == nil ==> fresh(txn.tableEntries[tposOf(meta)].deleteTrackers)
+//@   ensures @rejected-leaves-entry-alone txn != nil && result != nil ==> txn.tableEntries[tposOf(meta)].deleteTrackers == old(txn.tableEntries[tposOf(meta)].deleteTrackers)
 
 // ---------------------------------------------------------------------------
 // Write operations over the abstract table state (C03, C09, C08).
@@ -390,17 +428,32 @@ package statedb
 //@   trusted
 //@   modifies H_statedb_* H_part_* H_lpm_* E_* GH_* CH_closed MD_* MV_* MN_* B_*
 //@   ensures unchanged(GH_held)
+//@   ensures old(ptrto(writeTxnHandle, unboxptr(recv)).writeTxnState) != nil ==> !GH_smus[old(ptrto(writeTxnHandle, unboxptr(recv)).writeTxnState.smus)] && unchangedExcept(GH_smus, old(ptrto(writeTxnHandle, unboxptr(recv)).writeTxnState.smus))
 //@ func WriteTxn.Abort
 //@   trusted
 //@   modifies H_statedb_* H_part_* H_lpm_* E_* GH_* CH_closed MD_* MV_* MN_* B_*
 //@   ensures unchanged(GH_held)
+//@   ensures old(ptrto(writeTxnHandle, unboxptr(recv)).writeTxnState) != nil ==> !GH_smus[old(ptrto(writeTxnHandle, unboxptr(recv)).writeTxnState.smus)] && unchangedExcept(GH_smus, old(ptrto(writeTxnHandle, unboxptr(recv)).writeTxnState.smus))
 
+// Collector protocol (C07, C08, C10): dead entries are identified by their deletion revision -
+// the scan reads the graveyard-revision index and the write transaction deletes from that index
+// first (a revision is unique per deletion; a primary key is not: the object may have been
+// re-inserted and deleted again in between), and only for an entry that still existed is the
+// graveyard (primary-key) entry of that very object removed. Every round ends with no table
+// locks held: the write transaction it opened is committed.
+//@ spec ixPos(x any) mathint
 //@ func graveyardWorker
-//@   property C08 C10
+//@   property C08 C10 C07
 //@   flag nosafety
 //@   maypanic
-//@   requires db != nil && !GH_held[addr(db.mu)]
+//@   requires db != nil && !GH_held[addr(db.mu)] && (forall a ptr :: !GH_smus[a])
+//@   aftercall (*writeTxnState).mustIndexWriteTxn@* assume ixPos(result) == $2
+//@   aftercall ReadTxn.mustIndexReadTxn@* assume ixPos(result) == $2
+//@   atcall tableIndexReader.all@1 requires @scan-by-deletion-revision ixPos($0) == GraveyardRevisionIndexPos
+//@   atcall tableIndexTxn.delete@1 requires @collect-by-deletion-revision ixPos($0) == GraveyardRevisionIndexPos
+//@   atcall tableIndexTxn.delete@2 requires @then-the-graveyard-entry-of-that-object ixPos($0) == GraveyardIndexPos
 //@   loop 1 invariant @no-root-mutex !GH_held[addr(db.mu)]
+//@   loop 1 invariant @no-table-locks-between-rounds forall a ptr :: !GH_smus[a]
 //@   loop 3 invariant @below-table-revision lowWatermark <= table.revision
 //@   loop 3 backedge @below-tracker lowWatermark <= rev
 //@   loop 3 backedge @monotone lowWatermark <= atHead(lowWatermark)
@@ -500,6 +553,7 @@ package statedb
 //@   atcall (*Pointer).Load@1 requires @load-after-table-locks GH_smus[txn.smus] && !GH_held[addr(db.mu)]
 //@   atcall SortableMutexes.Lock@1 requires @no-root-mutex-while-locking !GH_held[addr(db.mu)]
 //@   ensures @root-mutex-untouched unchanged(GH_held)
+//@   ensures @holds-exactly-its-table-locks ptrto(writeTxnHandle, unboxptr(result)).writeTxnState != nil && GH_smus[ptrto(writeTxnHandle, unboxptr(result)).writeTxnState.smus] && unchangedExcept(GH_smus, ptrto(writeTxnHandle, unboxptr(result)).writeTxnState.smus)
 //@   ensureslocal @holds-table-locks GH_smus[txn.smus] && !GH_held[addr(db.mu)]
 
 // ---------------------------------------------------------------------------
